@@ -159,7 +159,9 @@ def check(case, ctx):
     srt = np.sort(coss)
 
     def cmp(name, V1, V2):
-        a2 = np.asarray(symmetry.Umis(np.asarray(V1, U1.dtype), np.asarray(V2, U1.dtype), k), float)[:, 1]
+        if dt == "float32":
+            V1, V2 = np.asarray(V1, np.float32), np.asarray(V2, np.float32)
+        a2 = np.asarray(symmetry.Umis(V1, V2, k), float)[:, 1]
         ctx.near("invariance/" + name, O.maxabs(np.sort(np.cos(np.radians(a2))) - srt) * (1e-12 / tol_def), 1e-12, "umis-invariance/" + name,
                  "system %d: angle multiset changes under %s" % (k, name))
     cmp("U2.rot", U1, U2 @ R[j])
